@@ -166,9 +166,6 @@ impl<W, R, T> Heap<W, R, T> {
     { unimplemented!() }
 }
 
-/// std::cmp::min by its documented meaning (`b` only when it is strictly smaller)
-pub assume_specification<X: Ord> [std::cmp::min::<X>] (a: X, b: X) -> (r: X)
-    ensures r == (if vstd::std_specs::cmp::OrdSpec::cmp_spec(&b, &a) == core::cmp::Ordering::Less { b } else { a });
 
 /// the bytes the last successful pre-flight check covered (ghost; R-state appends it to `can_allocate` and to
 /// the call of `n_largest`)
@@ -197,6 +194,8 @@ pub open spec fn is_seq<W, R, T>(r: RuntimeResult<TailedEvalResult<W, R, T>>, l:
     r matches Ok(t) ==> (t is Value && t->Value_0 is Ok && t->Value_0->Ok_0.value is Native
         && !(*(t->Value_0->Ok_0.value->Native_0) is Other) && vals(*(t->Value_0->Ok_0.value->Native_0)) =~= l)
 }
+
+// @@INCLUDE stdx@@
 
 // @@EXTRACTED@@
 
